@@ -82,7 +82,11 @@ func (fr *Frame) doCall(call *ssa.CallCommon, instr *ssa.Call, pos token.Pos) Va
 		}
 		return fr.builtin(f.Name(), call, args, resT, pos)
 	case *ssa.Function:
-		return fr.callFunc(f, nil, args, resT, pos)
+		r := fr.callFunc(f, nil, args, resT, pos)
+		if c := vc.e.contracts[fnName(f)]; c != nil && c.PureResult {
+			fr.assumePure(fnName(f), call, r)
+		}
+		return r
 	case *ssa.MakeClosure:
 		fv := fr.val(f)
 		return fr.callFunc(fv.Fn, fv.Bind, args, resT, pos)
@@ -936,4 +940,143 @@ func (fr *Frame) snapshotPreCall() {
 			return
 		}
 	}
+}
+
+// ---- `pure` externals: the result is a deterministic function of the argument values (strings built by formatting and
+// joining): result == pure_<callee>_<sorts>(args...), the same uninterpreted function a specification reaches by writing the
+// call (spec.go). A variadic tail is expanded into the values boxed into it when it is the usual fresh array filled in place.
+
+func pureFunName(key string, sorts []string) (string, bool) {
+	var b strings.Builder
+	b.WriteString("pure_")
+	for _, r := range key {
+		if r >= 'a' && r <= 'z' || r >= 'A' && r <= 'Z' || r >= '0' && r <= '9' {
+			b.WriteRune(r)
+		} else {
+			b.WriteRune('_')
+		}
+	}
+	for _, so := range sorts {
+		switch so {
+		case "Str", "Int", "Bool":
+			b.WriteString("_" + so)
+		default:
+			return "", false
+		}
+	}
+	return b.String(), true
+}
+
+// the sort and Go type of a pure function's (first) result
+func (vc *VC) pureResult(key string) (string, types.Type, bool) {
+	f := vc.e.funcs[key]
+	if f == nil || f.Signature.Results().Len() == 0 {
+		return "", nil, false
+	}
+	t := f.Signature.Results().At(0).Type()
+	so := vc.sortOf(t)
+	if so != "Str" && so != "Int" && so != "Bool" {
+		return "", nil, false
+	}
+	return so, t, true
+}
+
+func (vc *VC) pureApp(key string, args []Val, resSort string) (string, bool) {
+	var sorts, terms []string
+	for _, a := range args {
+		if a.Typ == nil || a.T == "" {
+			return "", false
+		}
+		sorts = append(sorts, vc.sortOf(a.Typ))
+		terms = append(terms, a.T)
+	}
+	name, ok := pureFunName(key, sorts)
+	if !ok || (resSort != "Str" && resSort != "Int" && resSort != "Bool") {
+		return "", false
+	}
+	vc.declFun(name, "("+strings.Join(sorts, " ")+") "+resSort)
+	if len(terms) == 0 {
+		return name, true
+	}
+	return sApp(name, terms...), true
+}
+
+func (fr *Frame) pureArgs(call *ssa.CallCommon) ([]Val, bool) {
+	sig := call.Signature()
+	var out []Val
+	for i, a := range call.Args {
+		if sig.Variadic() && i == len(call.Args)-1 {
+			if c, isC := a.(*ssa.Const); isC && c.IsNil() {
+				continue
+			}
+			sl, ok := a.(*ssa.Slice)
+			if !ok || sl.Low != nil || sl.High != nil {
+				return nil, false
+			}
+			al, ok := sl.X.(*ssa.Alloc)
+			if !ok || al.Referrers() == nil {
+				return nil, false
+			}
+			arr, ok := al.Type().Underlying().(*types.Pointer).Elem().Underlying().(*types.Array)
+			if !ok || arr.Len() > 8 {
+				return nil, false
+			}
+			elems := make([]ssa.Value, arr.Len())
+			for _, ref := range *al.Referrers() {
+				ia, ok := ref.(*ssa.IndexAddr)
+				if !ok {
+					continue
+				}
+				c, ok := ia.Index.(*ssa.Const)
+				if !ok || ia.Referrers() == nil {
+					return nil, false
+				}
+				for _, r2 := range *ia.Referrers() {
+					if st, ok := r2.(*ssa.Store); ok && st.Addr == ia {
+						if elems[c.Int64()] != nil {
+							return nil, false
+						}
+						elems[c.Int64()] = st.Val
+					}
+				}
+			}
+			for _, e := range elems {
+				if e == nil {
+					return nil, false
+				}
+				if mi, ok := e.(*ssa.MakeInterface); ok {
+					out = append(out, fr.val(mi.X))
+				} else {
+					out = append(out, fr.val(e))
+				}
+			}
+			continue
+		}
+		out = append(out, fr.val(a))
+	}
+	return out, true
+}
+
+func (fr *Frame) assumePure(key string, call *ssa.CallCommon, r Val) {
+	vc := fr.vc
+	// a tuple result: the first component is the function's value (the others - an error - are left open)
+	if len(r.Elems) > 0 {
+		r = r.Elems[0]
+	}
+	if r.Typ == nil || r.T == "" {
+		return
+	}
+	so, _, ok := vc.pureResult(key)
+	if !ok || so != vc.sortOf(r.Typ) {
+		return
+	}
+	args, ok := fr.pureArgs(call)
+	if !ok {
+		return
+	}
+	app, ok := vc.pureApp(key, args, so)
+	if !ok {
+		return
+	}
+	vc.assume(fr.curReach, sEq(r.T, app), "pure "+key)
 }
